@@ -122,6 +122,10 @@ impl InterfaceInner {
 
         // The key specifies to which 6LoWPAN fragment it belongs too.
         // It is based on the link layer addresses, the tag and the size.
+        if ieee802154_repr.src_addr.is_none() || ieee802154_repr.dst_addr.is_none() {
+            net_debug!("6LoWPAN: fragment without link layer addresses");
+            return None;
+        }
         let key = FragKey::Sixlowpan(frag.get_key(ieee802154_repr));
 
         // The offset of this fragment in increments of 8 octets.
